@@ -1,6 +1,7 @@
 import GeffModel.Proto
 import GeffModel.ReadOnly
 import GeffModel.MetaHeap
+import GeffModel.ArrHeap
 open Lean Geff Geff.Proto Geff.KV Geff.MetaHeap
 
 /-! Driver for C18.  Request {"op":"open","mode":m,"fmt":0|2|3,"path":[components…],
@@ -132,6 +133,35 @@ def handleMeta (j : Json) : Except String Json := do
       ("edge_dict_same", Json.bool (ep' == ep)), ("axes_same", Json.arr sameAxes.toArray),
       ("axes", axesJson h' r), ("node", dictJson h' np'), ("edge", dictJson h' ep')]
 
+/-! third op: {"op":"heap","bufs":[[…]…],"cells":[[buf,hdr]…],"ops":[["alloc",[…],hdr] | ["view",src,hdr] |
+["write",tgt,[…]] | ["hdr",tgt,h]…]}: `Geff.ArrHeap.run` on the given heap; answer {"bufs","cells","safe"}
+(`safe` = `safeRun` relative to the entry sizes). -/
+def natList (j : Json) : Except String (List Nat) := do
+  (← j.getArr?).toList.mapM fun x => x.getNat?
+
+def handleHeap (j : Json) : Except String Json := do
+  let bufs ← (← (← j.getObjVal? "bufs").getArr?).toList.mapM natList
+  let cells ← (← (← j.getObjVal? "cells").getArr?).toList.mapM fun c => do
+    let q ← natList c
+    match q with
+    | [b, h] => pure (⟨b, h⟩ : Geff.ArrHeap.Cell)
+    | _ => throw "cell: [buf, hdr]"
+  let ops ← (← (← j.getObjVal? "ops").getArr?).toList.mapM fun o => do
+    let q ← o.getArr?
+    if q.size != 3 then throw "op: [kind, a, b]"
+    match ← q[0]!.getStr? with
+    | "alloc" => pure (Geff.ArrHeap.Op.alloc (← natList q[1]!) (← q[2]!.getNat?))
+    | "view" => pure (Geff.ArrHeap.Op.view (← q[1]!.getNat?) (← q[2]!.getNat?))
+    | "write" => pure (Geff.ArrHeap.Op.writeInto (← q[1]!.getNat?) (← natList q[2]!))
+    | "hdr" => pure (Geff.ArrHeap.Op.setHdr (← q[1]!.getNat?) (← q[2]!.getNat?))
+    | k => throw s!"unknown heap op {k}"
+  let h0 : Geff.ArrHeap.Heap := ⟨bufs, cells⟩
+  let h := Geff.ArrHeap.run h0 ops
+  let nl (l : List Nat) : Json := Json.arr (l.map fun (n : Nat) => Json.num (JsonNumber.fromNat n)).toArray
+  return Json.mkObj [("bufs", Json.arr (h.bufs.map nl).toArray),
+    ("cells", Json.arr (h.cells.map fun c => nl [c.buf, c.hdr]).toArray),
+    ("safe", Json.bool (Geff.ArrHeap.safeRun bufs.length cells.length h0 ops))]
+
 def handle (j : Json) : Except String Json := do
   let op ← (← j.getObjVal? "op").getStr?
   match op with
@@ -149,6 +179,7 @@ def handle (j : Json) : Except String Json := do
     return Json.mkObj [("keys", Json.arr ((sortStrs (fs'.keys.map (·.1))).map Json.str).toArray),
                        ("dirs", Json.arr ((sortStrs fs'.dirs).map Json.str).toArray)]
   | "meta" => handleMeta j
+  | "heap" => handleHeap j
   | _ => throw s!"unknown op {op}"
 
 def main : IO Unit := Proto.run handle
